@@ -97,20 +97,25 @@ func (b *Bus) EaRead24_wrap(bank byte, addr uint16) uint32 {
 	bank32 := uint32(bank) << 16
 	offs := uint32(addr)
 
-	m0 := b.segment[(bank32|offs+0)>>4]
-	m1 := b.segment[(bank32|offs+1)>>4]
-	m2 := b.segment[(bank32|offs+2)>>4]
+	// the three bytes wrap inside the bank (offsets are 16 bit):
+	a0 := bank32 | offs
+	a1 := bank32 | uint32(addr+1)
+	a2 := bank32 | uint32(addr+2)
+
+	m0 := b.segment[a0>>4]
+	m1 := b.segment[a1>>4]
+	m2 := b.segment[a2>>4]
 	if m0 == nil || m1 == nil || m2 == nil {
 		a := bank32 | (offs + 0)
 		panic(fmt.Errorf("No backend for address 0x%06X index %06x", a, a>>4))
 	}
 
 	b.Write = false
-	b.EA = bank32 | (offs + 0) // for debug interface
+	b.EA = a0 // for debug interface
 	ll := m0.Read(b.EA)
-	b.EA = bank32 | (offs + 1)
+	b.EA = a1
 	mm := m1.Read(b.EA)
-	b.EA = bank32 | (offs + 2)
+	b.EA = a2
 	hh := m2.Read(b.EA)
 
 	return uint32(hh)<<16 | uint32(mm)<<8 | uint32(ll)
